@@ -58,12 +58,14 @@ BOUNDS = {
 EVENTS = (
     [("reg", "r1", 1, p, None) for p in (-300, 300, 2000)]
     + [("reg", "r2", 3, None, (-100, 100)), ("reg", "r2", 3, 50, None)]
-    + [("op", "o1", 2, p, None) for p in (-300, 0, 200, 500)]
+    + [("op", "o1", 2, p, None) for p in (-300, 0, 500)]
+    + [("op", "o1", 2, None, None)]  # the operating-point actor withdraws (neither power nor bounds)
     + [("bounds", k) for k in ("widen", "shrink", "shift", "b1000", "none")]
     + [("result", k) for k in ("success", "partial", "error", "partial-old")]
     + [("expire",)]
 )
-EVENTS_T = EVENTS + [("bounds", "excl"), ("reg", "r1", 1, 50, None), ("op", "o2", 4, None, (-100, 600))]
+EVENTS_T = EVENTS + [("bounds", "excl"), ("reg", "r1", 1, 50, None), ("op", "o2", 4, None, (-100, 600)), ("op", "o1", 2, 200, None),
+                     ("reg", "r1", 1, None, None)]
 
 
 OLD_STAMPED = {"shrink", "shift"}  # delivered with a timestamp older than the previous message's
@@ -240,7 +242,7 @@ def run(tier: str, seed: int, workers: int):
     acc = pmap_acc(shard, shards, workers)
     meta = {
         "rule": "every history to depth 4 (quick) / 5 (thorough) over the event menu {regular proposal (2 actors: preferred -300/300/2000, "
-        "bounds-only, 50), operating-point proposal (-300/0/200/500), system bounds widen / shrink / shift / back / unavailable, "
+        "bounds-only, 50), operating-point proposal (-300/0/500, withdrawal; thorough also 200 and a regular withdrawal), system bounds widen / shrink / shift / back / unavailable, "
         "distribution result Success / PartialFailure / Error for the latest request and a late PartialFailure for the previous one, expiry (+61 s)} from a warm start (bounds +-1000 delivered, one regular "
         "and one operating-point report subscription) and to depth 3-4 from a cold start (no bounds yet); non-trivial = history with a "
         "regular and an operating-point proposal and at least one bounds/result/expiry event",
